@@ -169,11 +169,9 @@ M = [
   "            cls._unit_map[symbol] = unit\n        # UnitRegistryT"),
  # ---- C16
  ("c16_new_unit_validation_after_registration", "C16", INIT,
-  "        if isinstance(define_as, Quantity):\n"
-  "            if not isinstance(define_as, cls):\n"
+  "            if define_as.unit.qty_cls is not cls:\n"
   "                raise TypeError(",
-  "        if isinstance(define_as, Quantity):\n"
-  "            if not isinstance(define_as, cls):\n"
+  "            if define_as.unit.qty_cls is not cls:\n"
   "                cls._make_unit(symbol, name, None)\n"
   "                raise TypeError("),
  ("c16_money_unit_before_fraction_check", "C16", MONEY,
